@@ -56,6 +56,16 @@ Theorem C15_ranges_are_separated_runs : forall eps w focus m, 0 <= eps -> 0 < w_
   sep (crop_ranges_tl eps w focus m).
 Proof. exact crop_ranges_tl_spec. Qed.
 
+(* samples(d, mode) is a count: never negative, 0 in strict mode when d is shorter than the window
+   (after the repair of finding F12; the pre-repair strict formula is refuted) *)
+Theorem C15_samples_is_never_negative : forall w d m, 0 < w_step w -> 0 < w_dur w -> 0 <= d -> 0 <= samples w d m.
+Proof. exact samples_nonneg. Qed.
+Theorem C15_no_frame_fits_in_less_than_a_window : forall w d, 0 < w_step w -> d < w_dur w -> samples w d AStrict = 0.
+Proof. exact samples_strict_zero_when_too_short. Qed.
+Theorem C15_old_strict_count_refuted :
+  exists w d, 0 < w_step w /\ 0 < w_dur w /\ 0 <= d /\ fdiv (d - w_dur w) (w_step w) + 1 < 0.
+Proof. exact old_strict_count_refuted. Qed.
+
 Example C15_nonvacuous :
   crop_range (mkWin 2 1 0 None) (3, 7) ALoose None = (1, 8) /\
   crop_range (mkWin 2 1 0 None) (3, 7) AStrict None = (3, 6) /\
@@ -73,3 +83,6 @@ Print Assumptions C15_timeline_focus.
 Print Assumptions C15_empty_focus.
 Print Assumptions C15_ranges_describe_the_same_index_set.
 Print Assumptions C15_ranges_are_separated_runs.
+Print Assumptions C15_samples_is_never_negative.
+Print Assumptions C15_no_frame_fits_in_less_than_a_window.
+Print Assumptions C15_old_strict_count_refuted.
